@@ -43,6 +43,14 @@ def propagate_viability_from_node(node: AttackGraphNode) -> None:
         if child.is_viable != original_value:
             propagate_viability_from_node(child)
 
+def _has_ttc_distribution(node: AttackGraphNode) -> bool:
+    """
+    Return True if the node has a TTC probability distribution (anything
+    other than Enabled or Disabled) associated with it.
+    """
+    return bool(node.ttc and 'name' in node.ttc and \
+        node.ttc['name'] not in ['Enabled', 'Disabled'])
+
 def propagate_necessity_from_node(node: AttackGraphNode) -> None:
     """
     Arguments:
@@ -54,13 +62,12 @@ def propagate_necessity_from_node(node: AttackGraphNode) -> None:
         node.full_name, node.id, node.is_necessary
     )
 
-    if node.ttc and 'name' in node.ttc:
-        if node.ttc['name'] not in ['Enabled', 'Disabled']:
-            # Do not propagate unnecessary state from nodes that have a TTC
-            # probability distribution associated with them.
-            # TODO: Evaluate this more carefully, how do we want to have TTCs
-            # impact necessity and viability.
-            return
+    if _has_ttc_distribution(node):
+        # Do not propagate unnecessary state from nodes that have a TTC
+        # probability distribution associated with them.
+        # TODO: Evaluate this more carefully, how do we want to have TTCs
+        # impact necessity and viability.
+        return
 
     for child in node.children:
         original_value = child.is_necessary
@@ -70,7 +77,10 @@ def propagate_necessity_from_node(node: AttackGraphNode) -> None:
             # Accumulate first: the child can be one of its own parents
             is_necessary = False
             for parent in child.parents:
-                is_necessary = is_necessary or parent.is_necessary
+                # A parent with a TTC distribution never passes on its
+                # unnecessary state, whichever node triggered the update.
+                is_necessary = is_necessary or parent.is_necessary or \
+                    _has_ttc_distribution(parent)
             child.is_necessary = is_necessary
 
         # TODO: Update TTC for child attack step before if it is not necessary
